@@ -104,6 +104,7 @@ func e1Specs(prop, tier string) []engines.E1Spec {
 				specs = append(specs, engines.E1Spec{Name: fmt.Sprintf("W%d-names/none/rs20", i), Cfg: cfgNone, Setup: setup, Alphabet: engines.WAlphabet(engines.WNames)[:20], Depth: 1, Oracles: or})
 			}
 			specs = append(specs, engines.E1Spec{Name: "L-links/none/rs20", Cfg: cfgNone, Setup: engines.LinkSetup(), Alphabet: engines.LinkAlphabet(), Depth: map[bool]int{true: 3, false: 4}[tier == "quick"], Oracles: or, Level: "raw"})
+			specs = append(specs, engines.E1Spec{Name: "S-stale-handle/none/rs20", Cfg: cfgNone, Setup: engines.StaleHandleSetup(), Alphabet: engines.StaleHandleAlphabet(), Depth: map[bool]int{true: 3, false: 4}[tier == "quick"], Oracles: or, Level: "raw"})
 			specs = append(specs, engines.E1Spec{Name: "T-deep/none/rs20", Cfg: cfgNone, Alphabet: engines.DeepAlphabet(), Depth: map[bool]int{true: 3, false: 4}[tier == "quick"], Oracles: or})
 		}
 		return specs
@@ -335,6 +336,15 @@ func e1Specs(prop, tier string) []engines.E1Spec {
 				present := append([]string{}, subsets[i]...)
 				al := engines.WAlphabet(append(present, "zz", "aXb"))
 				out = append(out, engines.E1Spec{Name: fmt.Sprintf("W%d%v/none/rs20/depth%d", i, subsets[i], depth), Cfg: cfgNone, Setup: setup, Alphabet: al, Depth: depth, Oracles: or})
+				if depth == 1 && (tier != "quick" || i%2 == 1) {
+					// the same calls when a child of every directory was removed individually before (a tombstone below the
+					// directory, created before its still-live siblings)
+					ts := append([]ops.Op{}, setup...)
+					for _, w := range subsets[i] {
+						ts = append(ts, ops.Op{K: "remove", P: "/" + w + "/x"})
+					}
+					out = append(out, engines.E1Spec{Name: fmt.Sprintf("W%d%v/none/rs20/child-removed-before/depth1", i, subsets[i]), Cfg: cfgNone, Setup: ts, Alphabet: al, Depth: 1, Oracles: or})
+				}
 				if depth == 1 && (tier != "quick" || i%2 == 0) {
 					// the same calls on an instance whose index was rebuilt from the tape (names stored relative to the root)
 					rs := append(append([]ops.Op{}, setup...), ops.Op{K: "rebuild"})
